@@ -20,10 +20,12 @@
 //!   c16.rt.resp <eidx> i<status> a<k> (s<name> s<value>)… s<body>   → `ok`   (oracle only)
 //!   c16.rt.synresp <eidx> <object>                                  → `ok`   (oracle only)
 //!   c16.rt.err i<status> a<k> (s<name> s<value>)… s<body>           → `ok`   (oracle only)
+//!   c16.glue.*  — see `glue.rs`;  c16.real.req / c16.real.resp — see `real.rs`
 mod endpoints;
 mod glue;
 mod registry;
 mod seeds;
+mod srcdesc;
 mod synthetic;
 
 use std::sync::OnceLock;
@@ -127,6 +129,13 @@ impl<'a> Toks<'a> {
     fn done(&self) -> bool {
         self.i == self.t.len()
     }
+}
+
+/// The versions a `V` token sequence (`vm<mask>` or `vl<n> i<v>…`) denotes.
+pub fn versions_of(toks: &str) -> Option<Vec<MatrixVersion>> {
+    let mut t = Toks { t: toks.split(' ').collect(), i: 0 };
+    let v = t.versions()?;
+    t.done().then_some(v)
 }
 
 fn mask_versions(m: u32) -> Vec<MatrixVersion> {
@@ -337,6 +346,10 @@ fn sat_of(kind: usize, token: &str) -> Option<SendAccessToken<'_>> {
         3 => SendAccessToken::None,
         _ => return None,
     })
+}
+
+pub fn sat_of_pub(kind: usize, token: &str) -> Option<SendAccessToken<'_>> {
+    sat_of(kind, token)
 }
 
 fn dummy_history() -> VersionHistory {
@@ -640,6 +653,25 @@ pub fn run(req: &str) -> Outcome {
             let mut rest = t.t[t.i..].iter().copied();
             get!(glue::run_rin(g, &mut rest))
         }
+        "c16.real.req" => {
+            let e: usize = get!(t.next().and_then(|x| x.parse().ok()));
+            let vs = get!(t.versions());
+            let kind: usize = get!(t.next().and_then(|x| x.parse().ok()));
+            let token = get!(t.string());
+            let args = get!(t.strings());
+            let query = get!(t.string());
+            let headers = get!(t.pairs());
+            let sat = get!(sat_of(kind, &token));
+            let mut rest = t.t[t.i..].iter().copied();
+            get!(real::parse_run_req(e, &vs, sat, args, query, headers, &mut rest))
+        }
+        "c16.real.resp" => {
+            let e: usize = get!(t.next().and_then(|x| x.parse().ok()));
+            let status = get!(t.int()) as u16;
+            let headers = get!(t.pairs());
+            let mut rest = t.t[t.i..].iter().copied();
+            get!(real::parse_run_resp(e, status, headers, &mut rest))
+        }
         "c16.rt.err" => {
             let seed = RespSeed { status: get!(t.int()) as u16, headers: get!(t.pairs()), body: get!(t.bytes()) };
             run_error_rt(&seed)
@@ -714,6 +746,7 @@ fn extract() -> String {
         &|name| w.ep_hist[w.eps.iter().position(|e| e.name == name).expect("glue endpoint is registered")],
         &|m| lean_scheme(m.authentication),
     ));
+    s.push_str(&real::extract(&|i| w.ep_hist[i], &|i| lean_scheme(w.eps[i].meta.authentication)));
     s.push_str("\nend Ruma.Generated.C16\n");
     s
 }
@@ -732,10 +765,15 @@ fn lean_scheme(a: AuthScheme) -> &'static str {
 // ---------------------------------------------------------------- generators
 
 mod gen;
+mod real;
 
 fn main() {
     if std::env::args().nth(2).as_deref() == Some("probe") {
         gen::probe();
+        return;
+    }
+    if std::env::args().nth(2).as_deref() == Some("probe-desc") {
+        real::probe();
         return;
     }
     h_lib::std_main(Some(&extract), &gen::gen, &run);
